@@ -101,7 +101,8 @@ func checkC12(p *Prog, r *Report) {
 				}
 				var id *Term
 				cls.Walk(func(x *Term) {
-					if id == nil && x.Op == "lit" && strings.HasSuffix(x.Name, "types.Denom") {
+					// the class literal itself (constructor summarised) or the Denom it is built from (constructor kept as a call)
+					if id == nil && x.Op == "lit" && (strings.HasSuffix(x.Name, "types.Denom") || strings.HasSuffix(x.Name, "x/nft.Class")) {
 						id = x.Field("Id")
 					}
 				})
